@@ -285,7 +285,9 @@ def _apply_unitary(val: Any, args: ApplyChannelArgs) -> np.ndarray | None:
     if left_result is None:
         return None
     right_args = ApplyUnitaryArgs(
-        target_tensor=np.conjugate(left_result),
+        # np.asarray: conjugating a zero-dimensional tensor (an operation on no qubits)
+        # yields a numpy scalar, which cannot be updated in place.
+        target_tensor=np.asarray(np.conjugate(left_result)),
         available_buffer=args.out_buffer,
         axes=args.right_axes,
     )
